@@ -152,6 +152,13 @@ func replayOne(ti int, tr mbt.Trace, rep *mbt.Report) {
 		rep.Fail(mbt.Failure{Trace: ti, TraceID: tr.ID, Step: si, Action: fmt.Sprintf("%s%s", st.A, canon(st.Args)), Kind: kind,
 			Property: prop, Key: key, Detail: detail, Want: want, Got: got})
 	}
+	var expanded []interface{}
+	defer func() {
+		if p := os.Getenv("VERIF_CSIM_EXPAND"); p != "" && len(expanded) > 0 {
+			b, _ := json.Marshal(expanded)
+			ioutil.WriteFile(p, b, 0644)
+		}
+	}()
 	preCrash := map[int]map[string]interface{}{}
 	tornCrash := map[int]bool{}
 	acceptedR0 := map[string]bool{} // "node/height": accepted a round-0 proposal while running
@@ -190,6 +197,7 @@ func replayOne(ti int, tr mbt.Trace, rep *mbt.Report) {
 			case "InternalAll":
 				for len(s.Nodes[mbt.Int(st.Args[0])].IQ) > 0 && aerr == nil {
 					_, aerr = s.Internal(mbt.Int(st.Args[0]))
+					expanded = append(expanded, []interface{}{"Internal", st.Args[0]})
 				}
 			case "Fire":
 				_, aerr = s.Fire(mbt.Int(st.Args[0]))
@@ -280,6 +288,9 @@ func replayOne(ti int, tr mbt.Trace, rep *mbt.Report) {
 				return
 			}
 			continue
+		}
+		if st.Post == nil && st.A != "InternalAll" {
+			expanded = append(expanded, append([]interface{}{st.A}, st.Args...))
 		}
 		if st.Post == nil {
 			// free-running scenario step: only the direct oracles apply
